@@ -457,3 +457,16 @@ twin("C15-T1", "C15", "run_optimization restores in finally via a helper local",
 
 mutant("C01-M14", "C01", "R01g", "TimedCompartment.__setitem__ divides by rows + 1", M, "TimedCompartment.__setitem__", "(self._vals.shape[0] * np.ones((self._vals.shape[0], 1)))", "((self._vals.shape[0] + 1) * np.ones((self._vals.shape[0], 1)))")
 mutant("C01-M15", "C01", "R01g", "TimedLink total drops the first row", M, "TimedLink.__getitem__", "return self._vals[:, ti].sum(axis=0)", "return self._vals[1:, ti].sum(axis=0)")
+
+# =============================================================================================== added after the first round of independently seeded changes
+mutant("C03-M12", "C03", "R03c", "single fraction clamped at 1 before the joint rescale", M, "Model.update_links", "converted_frac = transition * (self.dt / par.timescale)", "converted_frac = min(1.0, transition * (self.dt / par.timescale))")
+mutant("C04-M13", "C04", "R04a", "initial flush also for empty junctions", M, "JunctionCompartment.initial_flush", "if self.vals[0] > 0:", "if self.vals[0] >= 0:")
+mutant("C10-M9", "C10", "R10e", "residual junction flushes when empty", M, "ResidualJunctionCompartment.initial_flush", "if self.vals[0] > 0:", "if self.vals[0] >= 0:")
+mutant("C12-M9", "C12", "R12f", "0/0 guard tests the coverage instead of the denominator", PR, "Covout.get_outcome", "where=remainder != 0", "where=cov < 1")
+mutant("C13-M11", "C13", "R13a", "integrator special-cases an empty target", M, "Model.update_pars", "                    prop_coverage[k] = self.progset.programs[k].get_prop_covered(self.t[ti], self._program_cache[\"capacities\"][k][ti], n)", "                    if n > 0:\n                        prop_coverage[k] = self.progset.programs[k].get_prop_covered(self.t[ti], self._program_cache[\"capacities\"][k][ti], n)\n                    else:\n                        prop_coverage[k] = np.zeros(1)")
+mutant("C05-M13", "C05", "R05f", "early return for an empty timed compartment keeps the stale cached outflow", M, "TimedCompartment.resolve_outflows", "        # First, work out the scale factors as usual\n", "        if not self._vals[:, ti].any():\n            for link in self.outlinks:\n                link[ti] = 0.0\n            return\n")
+mutant("C06-M16", "C06", "R06f", "recursive set_dynamic drops progset", M, "Parameter.set_dynamic", "                        dep.set_dynamic(progset=progset)  # Run `set_dynamic()` on the parameter", "                        dep.set_dynamic()  # Run `set_dynamic()` on the parameter")
+mutant("C06-M17", "C06", "R06b", "precompute skipped when a scenario suspends the function", M, "Model.build", "if par.fcn_str and par._precompute:", "if par.fcn_str and par._precompute and not par.skip_function:")
+mutant("C01-M16", "C01", "R01h", "junction inflow accumulator aliases the first inlink's storage", M, "JunctionCompartment.balance", "        net_inflow = 0\n        if self.duration_group:\n            for link in self.inlinks:\n                net_inflow += link._vals[:, ti]  # If part of a duration group, get the flow from TimedLink._vals", "        net_inflow = 0\n        if self.duration_group:\n            net_inflow = self.inlinks[0]._vals[:, ti]\n            for link in self.inlinks:\n                net_inflow += link._vals[:, ti] * (link is not self.inlinks[0])")
+mutant("C02-M13", "C02", "R02a", "timed rescale decided from row 0 only", M, "TimedCompartment.resolve_outflows", "        rescale = np.divide(1, total_outflow, out=np.ones_like(total_outflow), where=total_outflow > 1)", "        if total_outflow[0] > 1:\n            rescale = 1 / total_outflow\n        else:\n            rescale = np.ones_like(total_outflow)")
+mutant("C07-M10", "C07", "R07e", "denominator of a fraction characteristic without meta_y_factor", M, "Population.initialize_compartments", "denom_par.y_factor[self.name] * denom_par.meta_y_factor", "denom_par.y_factor[self.name]")
